@@ -61,6 +61,29 @@ MC_BODY = "INIT Init\nNEXT Next\nVIEW View\nCHECK_DEADLOCK FALSE\n" + "".join(f"
 GEN_BODY = "INIT Init\nNEXT Next\nCONSTRAINT Emit\nCHECK_DEADLOCK FALSE\n"
 
 
+LIVE_BODY = "SPECIFICATION LiveSpec\nPROPERTY Answered\nPROPERTY Drain\nCHECK_DEADLOCK FALSE\n"
+
+
+def liveness(wd, cov, quick):
+    """C02's 'eventually': Answered and Drain under weak fairness on the repaired design (Sched.tla, LiveSpec).  Explicit
+    unloads are left out and the channel capacity is >= the number of requests: with a smaller capacity the completed loop
+    blocks sending an expiry event into the full channel it alone drains (DESIGN.md 11.7) -- a capacity artefact at 2-3 slots."""
+    cov["liveness"] = []
+    for c in (CONFIGS[:1] if quick else CONFIGS[:3]):
+        c2 = dict(c, unload=False, queue=max(c["queue"], len(c["modelof"]) + (0 if c["loadfail"] else 1)))
+        if len(c2["modelof"]) > 3:
+            c2["modelof"] = {k: v for k, v in list(c2["modelof"].items())[:3]}
+            c2["optof"] = {k: c2["optof"][k] for k in c2["modelof"]}
+            c2["keepof"] = {k: c2["keepof"][k] for k in c2["modelof"]}
+        mod = mc_module(wd, dict(c2, name=c2["name"] + "-live"))
+        cfg = vf.write_cfg(wd, f"Live_{mod}.cfg", consts(c2, runner_ids=3), LIVE_BODY)
+        r = vf.tlc(mod, cfg, wd, timeout=2400, heap="16g")
+        vf.tlc_must_pass(r, f"Sched liveness ({c['name']})")
+        cov["liveness"].append(dict(config=c["name"], distinct=r["distinct"], generated=r["generated"], properties=["Answered", "Drain"]))
+        cov["states"] += r["distinct"]
+        cov["transitions"] += r["generated"]
+
+
 def handler_progress(wd, res, cov, seed, quick):
     """C02 at the API: requests through the real handlers (scheduleRunner is the scheduler's caller), half of them abandoned
     by their client; a patient request that gets no answer, or a runner still listed at the end, is a violation."""
@@ -168,6 +191,7 @@ def run(prop, tier="quick", seed=1, replay=None):
             res.note(f"flags of the sibling scheduler properties seen in this run (reported by their own checks): {other}")
         if prop == "C02" and not replay:
             handler_progress(wd, res, cov, seed, quick)
+            liveness(wd, cov, quick)
         cov["checker_cmd"] = "tlc Sched.tla (MC per configuration) ; tlc Trace_Sched.tla"
     vf.write_evidence(prop, tier, seed, "model_checking", cov, time.time() - t0, violations=len(res.violations),
                       assumptions=["fake LlamaServers (load result, ping, Close controlled by the driver), one 'metal' GPU",
